@@ -28,7 +28,9 @@ SPEC = {
     ("C02", "C02_undecodable_dropped"), ("C02", "C02_dest_unsupported"), ("C02", "C02_dest_udp"), ("C02", "C02_dest_tcp"),
     ("C02", "C02_tcp_slot_reachable"), ("C02", "C02_independent_of_pins"), ("C02", "C02_roundtrip_return"),
     ("C02", "C02_roundtrip"), ("C02", "C02_process_response")]),
- "C06": (["C06", "C13", "C03"], [
+ "C06": (["C07_bridge", "C13_bridge", "C06", "C13", "C03", "C06_bridge"], [
+    ("C06_bridge", "C06_judge_bridge_step"), ("C06_bridge", "C06_judge_bridge_udp"), ("C06_bridge", "C06_agree_step"),
+    ("C06_bridge", "C06_lrn_ok_step"),
     ("C06", "C06_via_pushed"), ("C06", "C06_via_position"), ("C06", "C06_branch"), ("C06", "C06_rr_policy"),
     ("C06", "C06_rr_position"), ("C06", "C06_rr_flat"), ("C06", "own_record_route_text", "C06_own_record_route_text"),
     ("C06", "C06_decorate_learned"), ("C06", "C06_not_learned_untouched"), ("C06", "C06_backend_decorates"),
@@ -42,7 +44,9 @@ SPEC = {
     ("C13", "C13_route"), ("C13", "C13_route_decoded"), ("C13", "route_view_grammar", "C13_route_view_grammar"),
     ("C13", "route_header_text", "C13_route_header_text"),
     ("C13", "C13_keep_setting_decides"), ("C13", "C13_keep_env_default")]),
- "C03": (["C06", "C13", "C03"], [
+ "C03": (["C02", "C13_bridge", "C06", "C13", "C03", "C03_bridge"], [
+    ("C03_bridge", "choose_agree", "C03_choose_agree"), ("C03_bridge", "C03_judge_bridge_udp"), ("C03_bridge", "C03_judge_bridge_step"),
+    ("C03_bridge", "C03_judge_bridge_step_no_tcp"), ("C03_bridge", "agree_step_udp", "C03_agree_step_udp"),
     ("C03", "C03_at_most_one"), ("C03", "C03_at_most_one_udp"), ("C03", "C03_at_most_one_tcp"), ("C03", "C03_choice"),
     ("C03", "C03_choice_outputs"), ("C03", "C03_non_sip_route"), ("C03", "C03_backend_member"),
     ("C03", "C03_backend_member_event"), ("C03", "C03_unsupported_transport_dropped"),
